@@ -1,10 +1,13 @@
-use syn::{spanned::Spanned, Data, DeriveInput, Field, Meta, Type};
+use syn::{spanned::Spanned, Data, DeriveInput, Field, Meta};
 
 use super::{
     models::{FieldAttributeBuilder, TypeAttributeBuilder},
     TraitHandler,
 };
-use crate::{common::ident_index::IdentOrIndex, Trait};
+use crate::{
+    common::{ident_index::IdentOrIndex, r#type::dereference_stars},
+    Trait,
+};
 
 pub(crate) struct DerefMutStructHandler;
 
@@ -66,11 +69,9 @@ impl TraitHandler for DerefMutStructHandler {
 
             let field_name = IdentOrIndex::from_ident_with_index(field.ident.as_ref(), index);
 
-            deref_mut_token_stream.extend(if let Type::Reference(_) = &field.ty {
-                quote! (self.#field_name)
-            } else {
-                quote! (&mut self.#field_name)
-            });
+            let stars = dereference_stars(&field.ty, 0);
+
+            deref_mut_token_stream.extend(quote! (&mut #stars self.#field_name));
         }
 
         let ident = &ast.ident;
